@@ -183,7 +183,12 @@ Fixpoint uniq_first (l : list (list nat)) : list (list nat) :=
 Definition completions (lc : list nat) : list (list nat) := map (unravel lc) (seq 0 (prod lc)).
 
 (* _compute_weights: each distinct row u is expanded with every latent completion c; its weight is
-   likelihood(u,c) / sum over completions * (number of occurrences of u) *)
+   likelihood(u,c) / sum over completions * (number of occurrences of u).
+   pgmpy splits the distinct rows into batches of `batch_size` (one joblib job per batch, offsets
+   0, batch_size, 2*batch_size, ... < number of distinct rows) and concatenates the results.  The model has
+   NO batching: batching is a partition of the distinct rows, so it must not change the result -- every
+   distinct row, including those of a last partial batch, is expanded exactly once.  The harness runs pgmpy
+   with batch_size 1, 2, 3, 4, 7 and the default against this un-batched definition. *)
 Definition e_step (card : var -> nat) (cols : list var) (rows : list (list nat)) (lats : list var)
            (cpds : list cpd) (clamp : Qc) : list wrow :=
   let lc := completions (map card lats) in
